@@ -60,7 +60,8 @@ def gen_file(rng, ids, sysfields, stamps_pool):
             "dl": opt("https://dl/" + fid, 0.4), "size": opt(rng.choice([0, 1, 1234, 2 ** 40]), 0.3),
             "mime": opt(rng.choice(["application/pdf", "text/plain"]), 0.3),
             "file_shape": rng.choice(["obj", "obj", "nonobj"]),
-            "modified": opt(stamp(), 0.1), "created": opt(stamp(), 0.1), "fields": gen_fields(rng, sysfields)}
+            "modified": opt(stamp(), 0.1), "created": opt(stamp(), 0.1), "fields": gen_fields(rng, sysfields),
+            "nulls": rng.random() < 0.5}
 
 
 def gen_tree(rng, ids, sysfields, depth, max_children, stamps_pool, healthy_ids=True):
@@ -73,7 +74,7 @@ def gen_tree(rng, ids, sysfields, depth, max_children, stamps_pool, healthy_ids=
         elif r < 0.85 and depth > 0:
             nm = rng.choice(NAMES)
             out.append({"t": "folder", "name": nm if rng.random() > 0.04 else None, "id": ids(),
-                        "also_file": rng.random() < 0.1,
+                        "also_file": rng.random() < 0.1, "nulls": rng.random() < 0.5,
                         "ch": gen_tree(rng, ids, sysfields, depth - 1, max_children, stamps_pool)})
         elif r < 0.93:
             out.append({"t": "junk"})
@@ -238,10 +239,52 @@ def gen_filter(rng, tree, kind):
     return f
 
 
+QNAMES = ["Shared Documents", "R&D (2024)", "\u00dcbung #1", "100% done", "a+b", "semi;colon=1", "q?mark", "caf\u00e9 \u65e5\u672c",
+          "It's", "[brackets]", "a%20b"]
+
+
+def gen_qcase(rng, ids, sysfields, pool):
+    """library whose folder names need URL quoting + a filter restricted to some of those folders by path,
+    with full-path patterns: the reference listing must come back with the folder path as given (unquoted)"""
+    def files(k):
+        out = []
+        for nm in rng.sample(NAMES, k):
+            f = gen_file(rng, ids, sysfields, pool)
+            f["name"] = nm
+            out.append(f)
+        return out
+    top = rng.sample(QNAMES, rng.randint(2, 3))
+    tree = files(rng.randint(0, 2))
+    paths = []
+    for nm in top:
+        sub = rng.choice([x for x in QNAMES if x != nm])
+        inner = files(rng.randint(1, 2))
+        ch = files(rng.randint(1, 3)) + [{"t": "folder", "name": sub, "id": ids(), "also_file": False, "ch": inner}]
+        rng.shuffle(ch)
+        tree.append({"t": "folder", "name": nm, "id": ids(), "also_file": False, "ch": ch})
+        paths += [nm, nm + "/" + sub]
+    rng.shuffle(tree)
+    chosen = rng.sample(paths, rng.randint(1, 3)) + (["nope/" + top[0]] if rng.random() < 0.3 else [])
+    deco = lambda p: rng.choice([p, p, p, "/" + p, p + "/", "/" + p + "/"])
+    f = {"created_after": None, "created_before": None, "modified_after": None, "modified_before": None,
+         "folder_paths": [deco(p) for p in chosen], "path_patterns": [], "extensions": []}
+    r = rng.random()
+    if r < 0.4:
+        f["path_patterns"] = rng.sample([chosen[0] + "/*", "*/*", "*.pdf", top[0] + "*", "*" + top[-1][-3:] + "/*", "*/*/*"],
+                                        rng.randint(1, 2))
+    elif r < 0.6:
+        f["extensions"] = rng.sample([".pdf", ".TXT", ".docx"], 2)
+    return tree, f
+
+
 FAULTS = [("http", 500), ("http", 404), ("http", 401), ("http", 429), ("url",), ("status", 500), ("status", 301),
           ("status", 199), ("status", 300), ("status", None), ("badjson", b"not json"), ("badjson", b"{\"value\": [}"),
           ("badjson", b""), ("nonobj", b"[]"), ("nonobj", b"null"), ("nonobj", b"5"), ("nonobj", b"\"x\""),
-          ("badutf8", b"\xff\xfe{")]
+          ("badutf8", b"\xff\xfe{"),
+          ("os", "timeout"), ("os", "reset"), ("os", "remote"), ("read", "timeout"), ("read", "incomplete"),
+          ("badpage", b'{"value": null}'), ("badpage", b'{"value": 5}'), ("badpage", b'{"value": "abc"}'),
+          ("badpage", b'{"value": {"a": {"file": {}}}}'), ("badpage", b'{"value": [], "@odata.nextLink": 5}'),
+          ("badpage", b'{"@odata.nextLink": ["x"]}')]
 
 
 # ----------------------------------------------------------------------------- simulated Graph server
@@ -252,6 +295,8 @@ def item_json(n):
                          ("size", "size"), ("lastModifiedDateTime", "modified"), ("createdDateTime", "created")):
             if n[fld] is not None:
                 d[key] = n[fld]
+            elif n.get("nulls") and key != "size":
+                d[key] = None            # JSON null instead of a missing key
         if n["file_shape"] == "obj":
             d["file"] = {"mimeType": n["mime"]} if n["mime"] is not None else {"hashes": {}}
         else:
@@ -268,6 +313,8 @@ def item_json(n):
         d = {"folder": {"childCount": len(n["ch"])}}
         if n["name"] is not None:
             d["name"] = n["name"]
+        elif n.get("nulls"):
+            d["name"] = None
         if n["id"] is not None:
             d["id"] = n["id"]
         if n.get("also_file"):
@@ -337,8 +384,8 @@ def build_table(base, site_api, site, drive, tree, paging):
 
 
 class FakeResp:
-    def __init__(self, body, status, via_getcode):
-        self._body, self._status, self.closes = body, status, 0
+    def __init__(self, body, status, via_getcode, read_exc=None):
+        self._body, self._status, self.closes, self._read_exc = body, status, 0, read_exc
         if not via_getcode:
             self.status = status
 
@@ -346,6 +393,8 @@ class FakeResp:
         return self._status
 
     def read(self):
+        if self._read_exc is not None:
+            raise self._read_exc
         return self._body
 
     def close(self):
@@ -393,6 +442,16 @@ class Server:
                 raise URLError("connection refused")
             if f[0] == "status":
                 return self.ok(b"{}", f[1])
+            if f[0] == "os":
+                import http.client
+                raise {"timeout": TimeoutError("timed out"), "reset": ConnectionResetError("reset by peer"),
+                       "remote": http.client.RemoteDisconnected("closed without response")}[f[1]]
+            if f[0] == "read":
+                import http.client
+                r = FakeResp(b"", 200, False, read_exc=(TimeoutError("read timed out") if f[1] == "timeout"
+                                                        else http.client.IncompleteRead(b"ab")))
+                self.handed.append(r)
+                return r
             return self.ok(f[1])
         if url == self.token_url:
             return self.ok(json.dumps({"token_type": "Bearer", "access_token": TOK}).encode())
@@ -534,6 +593,9 @@ def call(client_mod, client, flt, drive, snap=lambda: None):
         else:
             r = list(client.list_files_filtered(make_filter(client_mod, flt), drive_id=drive))
         snap()
+        bad = [m for m in r if not all(isinstance(x, str) for x in (m.name, m.id, m.web_url))]
+        if bad:
+            return ("other", "NonStrField", f"metadata with a non-str name/id/web_url: {bad[0]!r}"[:200])
         return ("ok", [meta_canon(m) for m in r])
     except SharePointRequestError as e:
         snap()
@@ -620,6 +682,13 @@ def c_fault(f):
         return "RUrlError"
     if f[0] == "status":
         return f"ROk {coq_opt(f[1], coq_Z)} (BObj (page_obj [] None))"
+    if f[0] == "os":
+        return "ROsError"
+    if f[0] == "read":
+        return "RReadError"
+    if f[0] == "badpage":
+        return ("ROk (Some 200%Z) (BObj {| o_value := []; o_next := None; o_id := None; o_token := None; "
+                "o_folder := false; o_ok := false |})")
     return "ROk (Some 200%Z) " + {"badjson": "BBadJson", "nonobj": "BNonObj", "badutf8": "BBadUtf8"}[f[0]]
 
 
@@ -724,6 +793,8 @@ def fault_expect(f, is_tok, url):
         return ("request", None, url)
     if f[0] == "status":
         return ("request", f[1], url)
+    if f[0] in ("os", "read"):
+        return ("request", None, url)
     return ("auth",) if is_tok else ("request", None, url)
 
 
@@ -736,7 +807,13 @@ def judge(ctx, case, o, healthy, expected):
     if res[0] == "other":
         body = o["faults"][0][1] if o["faults"] else None
         key = f"raises-{res[1]}"
-        if body and body[0] == "nonobj":
+        if res[1] == "NonStrField":
+            key = "null-name"
+        elif body and body[0] in ("os", "read"):
+            key = "transport-oserror"
+        elif body and body[0] == "badpage":
+            key = "malformed-listing-body"
+        elif body and body[0] == "nonobj":
             key = "json-not-object"
         elif body and body[0] == "badutf8" and res[1] == "UnicodeDecodeError":
             key = "token-body-undecodable"
@@ -750,7 +827,7 @@ def judge(ctx, case, o, healthy, expected):
         ctx.finding("cache-from-failure", f"cache holds a value no successful response carried: {o['tok']!r} {o['sid']!r}", rp)
     if not o["faults"]:
         if expected is not None and res != ("ok", expected):
-            key = "listing-mismatch"
+            key = "folder-paths-listing" if case["filter"] and case["filter"]["folder_paths"] else "listing-mismatch"
             if res[0] == "ok" and case["filter"] and any(case["filter"][k] for k in (
                     "created_after", "created_before", "modified_after", "modified_before")):
                 # does the difference vanish at whole-second resolution?  then it is the sub-second truncation
@@ -764,7 +841,8 @@ def judge(ctx, case, o, healthy, expected):
         k0, f = o["faults"][0]
         if k0 < len(healthy["log"]):
             is_tok, url = healthy["log"][k0]
-            swallowed = (f == ("http", 404) and "/root:/" in url)    # _get_folder_by_path: folder not found
+            # _get_folder_by_path: folder not found / the answer is an object that is not a folder
+            swallowed = ((f == ("http", 404) or f[0] == "badpage") and "/root:/" in url)
             if not swallowed:
                 want = fault_expect(f, is_tok, url)
                 if res != want:
@@ -809,18 +887,21 @@ def run(ctx):
         "hand-written model of client.py (coq/C18/Model.v) tied by the differential run against a simulated Graph server "
         "(fake request_func) built independently in Python from the same tree/paging",
     ]
-    ctx.assumptions += ["JSON fields have their documented types or are missing (null names, non-string nextLink, "
-                        "non-list `value` are outside the model)",
-                        "fault kinds: HTTPError, URLError, non-2xx status, undecodable / malformed / non-object JSON body; "
-                        "exceptions other than HTTPError/URLError raised by the transport or by read() are not covered",
+    ctx.assumptions += ["item fields have their documented types, are missing or are JSON null (null = missing); fields of a "
+                        "wrong non-null type (name = 5) are outside the model",
+                        "fault kinds: HTTPError, URLError, other OSError/HTTPException from the transport or from read(), "
+                        "non-2xx status, undecodable / malformed / non-object JSON body, JSON object of the wrong listing "
+                        "shape (value not a list, nextLink not a string); a string nextLink that is no usable url is "
+                        "tested directly on the implementation, not modelled",
                         "finite pagination (no cyclic nextLink), server is a function of the url"]
     sysfields, base, token_url = gen_tables(ctx, client_mod)
     from urllib.parse import urlparse
     pu = urlparse(SITE_URL)
     site_api = f"{base}/sites/{pu.netloc}:{pu.path}"
 
-    ok1, _ = ctx.prove("C18/Props.v", ["C18/Proofs.vo"], expected=[
-        "C18_walk_exact", "C18_list_all_files_exact", "C18_filtered_is_filter_of_walk", "C18_matches_spec",
+    ok1, _ = ctx.prove("C18/Props.v", ["C18/Proofs.vo", "C18/ProofsPaths.vo"], expected=[
+        "C18_walk_exact", "C18_list_all_files_exact", "C18_filtered_is_filter_of_walk", "C18_filtered_by_folder_paths",
+        "C18_matches_spec",
         "C18_bounds_inclusive_exclusive", "C18_floor_preserves_bounds", "C18_fault_contained", "C18_retry_complete",
         "C18_responses_closed_always"])
     ok2, _ = ctx.prove("C18/Inst.v", ["Gen/C18Tables.vo", "C18/Corr.vo", "C18/Proofs.vo"],
@@ -831,9 +912,10 @@ def run(ctx):
     cases_coq, cases_info = [], []
     norm_inputs = set()
     try:
-        n_random = ctx.n(160, 1200)
-        n_sweep = ctx.n(10, 45)
-        plan = [("random", i) for i in range(n_random)] + [("sweep", i) for i in range(n_sweep)]
+        n_random = ctx.n(160, 800)
+        n_sweep = ctx.n(10, 25)
+        plan = ([("qpaths", i) for i in range(ctx.n(30, 200))] + [("random", i) for i in range(n_random)]
+                + [("sweep", i) for i in range(n_sweep)])
         for mode, idx in plan:
             ids = make_ids(rng)
             pool = rng.sample(STAMPS, rng.randint(2, 6))
@@ -846,6 +928,9 @@ def run(ctx):
             fk = rng.choice(["all", "all", "dates", "edge", "edge", "edge", "ext", "pat", "paths", "mixed", "mixed", "naive"]) if mode == "random" \
                 else rng.choice(["all", "all", "mixed", "paths"])
             flt = None if fk == "all" else gen_filter(rng, tree, fk)
+            if mode == "qpaths":
+                tree, flt = gen_qcase(rng, ids, sysfields, pool)
+                paging = gen_paging(rng, tree, base, SITE, rng.choice(["single", "one", "any"]))
             if flt is None:
                 drive = None
             table = build_table(base, site_api, SITE, drive, tree, paging)
@@ -862,8 +947,8 @@ def run(ctx):
             if mode == "sweep":
                 kinds = FAULTS if ctx.tier == "thorough" else rng.sample(FAULTS, 9)
                 scripts = [[(k, f)] for k in range(m) for f in kinds]
-                if len(scripts) > ctx.n(120, 600):
-                    scripts = rng.sample(scripts, ctx.n(120, 600))
+                if len(scripts) > ctx.n(120, 350):
+                    scripts = rng.sample(scripts, ctx.n(120, 350))
             elif rng.random() < 0.5 and m:
                 scripts = [[(rng.randrange(m), rng.choice(FAULTS))]]
                 if rng.random() < 0.3:      # a fault sequence: second fault hits the retry
@@ -918,6 +1003,15 @@ def run(ctx):
     if failing:
         ctx.extra["corr_disagreements"] = [cases_info[i] for i in failing[:5]]
 
+    # a nextLink that is a string but no usable url (relative link): outside the model (Request() refuses it before
+    # anything is sent); the property still demands the client's own error
+    rel_table = build_table(base, site_api, SITE, None, [], {None: [(0, "children/page2?x=1")]})
+    o = run_impl(client_mod, rel_table, token_url, None, None, [], 0)
+    ctx.case(("relative-nextlink",), True, kind="relative-nextlink")
+    if o["result"][0] not in ("request",):
+        ctx.finding("malformed-listing-body", f"a relative @odata.nextLink makes list_all_files raise {o['result']} instead of "
+                    "an error of the client's family", {"nextLink": "children/page2?x=1", "result": o["result"]})
+
     # string pieces modelled after str methods: normalisation handed to fromisoformat, strip("/")
     rec2 = Recorder()
     client_mod.datetime = rec2.dt
@@ -949,7 +1043,8 @@ META = {
     "level_text": "Kernel-checked theorems: for every library tree, every paging (arbitrary partition of every folder's "
                   "children into pages with server-chosen nextLinks) and every start state the walk returns exactly the "
                   "reference listing (each file once, with its parent path, in order); filtered listing = filter(matches) of "
-                  "the walk; matches = inclusive-after / exclusive-before / case-insensitive suffix / glob on the full path; "
+                  "the walk, and with folder_paths = per entry the filter of the walk of the folder found by path (404 / "
+                  "not a folder -> nothing), parent paths starting at the entry as given; matches = inclusive-after / exclusive-before / case-insensitive suffix / glob on the full path; "
                   "for every request index and fault kind the run raises the client's error with status and url, all "
                   "responses closed, caches only from successful responses, and the retry returns the complete listing. "
                   "Model tied to the code by differential runs (results, exceptions, request log, close counts, caches, retry).",
